@@ -8,7 +8,10 @@ from props.c08 import bout_up, ordered, INTS
 
 def run(chk):
     names = None
-    grids = corpus.get(tier=chk.tier)
+    # a grid regridded by redistributePoints and written WITHOUT an explicit calculateRZ() in between (redistributePoints itself must leave the points on the edges
+    # shared between regions coincident), and an upper disconnected double null whose inboard and outboard SOL limits differ
+    extra = [corpus.tok("lsn_nonorth_regrid_direct", "lsn", corpus.nonorth(corpus.SN), regrid=[dict(geometry_before=True, settings=corpus.RG1, calculateRZ=False)], must_build=True)]
+    grids = corpus.get(tier=chk.tier, extra_cfgs=extra)
     n = 0
     for g in grids:
         if not g.ok:
